@@ -47,7 +47,17 @@ func nNull() *N            { return &N{k: 'n'} }
 func nRaw(s string) *N     { return &N{k: 'x', s: s} } // raw YAML scalar (floats), extras only
 func nQ(l ...*N) *N        { return &N{k: 'q', l: l} }
 func nM() *N               { return &N{k: 'm'} }
-func (n *N) set(k string, v *N) *N { n.m = append(n.m, KV{k, v, false}); return n }
+// set adds or replaces key k (a document never has a key twice: yaml rejects duplicate keys)
+func (n *N) set(k string, v *N) *N {
+	for i := range n.m {
+		if n.m[i].k == k {
+			n.m[i].v = v
+			return n
+		}
+	}
+	n.m = append(n.m, KV{k, v, false})
+	return n
+}
 func (n *N) ext(k string, v *N) *N { n.m = append(n.m, KV{k, v, true}); return n }
 func (n *N) has(k string) bool {
 	for _, kv := range n.m {
